@@ -132,3 +132,36 @@ def read(P):
 
 def within_int16(bounds):
     return all(-32768 <= l <= u <= 32767 for l, u in bounds)
+
+
+def derive(P, rng, hows=("scale", "copy-edit", "reverse-rows", "add", "negate-row")):       # row count kept: the row index the copy carries still fits
+    """a polyhedron that numpy derives from P (same class, variables carried along by the library's __array_finalize__), with other entries
+    or another row order than P: what an earlier answer about P remembered must not leak into the answers about it"""
+    M = numpy.asarray(P)
+    how = rng.choice(list(hows))
+    if how == "scale":
+        k = rng.choice([2, 3])
+        info = numpy.iinfo(M.dtype)
+        if (numpy.abs(M.astype(object)) * k > info.max).any():
+            k = 1
+        Q = k * P
+    elif how == "copy-edit":
+        Q = P.copy()
+        i, j = rng.randrange(M.shape[0]), rng.randrange(M.shape[1])
+        v = int(M[i, j]) + rng.choice([-2, -1, 1, 2, 3])
+        info = numpy.iinfo(M.dtype)
+        Q[i, j] = v if info.min <= v <= info.max else int(M[i, j]) // 2            # stays inside the array's own integer type
+    elif how == "reverse-rows":
+        Q = P[::-1]
+    elif how == "add":
+        D = numpy.array([[rng.choice([0, 0, 1, -1, 2]) for _ in range(M.shape[1])] for _ in range(M.shape[0])], dtype=numpy.int64)
+        info = numpy.iinfo(M.dtype)
+        D[(M.astype(numpy.int64) + D > info.max) | (M.astype(numpy.int64) + D < info.min)] = 0
+        Q = P + D.astype(M.dtype)
+    elif how == "negate-row":
+        Q = P.copy()
+        i = rng.randrange(M.shape[0])
+        Q[i] = -1 * numpy.asarray(Q[i])
+    else:
+        Q = P[[rng.randrange(M.shape[0]) for _ in range(rng.randint(1, M.shape[0]))]]
+    return how, Q
